@@ -93,27 +93,24 @@ Theorem C02_eq_mixed_exact : forall n f, in64 n -> is_finite f = true ->
 Proof. exact equalIntAndFloat_exact. Qed.
 Print Assumptions C02_eq_mixed_exact.
 
-(* NOT theorems of the code as it stands: n < f and f <= n are wrong when f = 2^63
-   and float64(n) rounds up to 2^63.  cmp_defect n f = (2^63-512 <=? n) && (f == 2^63). *)
-Theorem C02_lt_mixed_exact_refuted :
-  exists n f, in64 n /\ is_finite f = true /\ (IZR n < B2R f)%R /\ ltIntAndFloat n f = false.
-Proof. exact ltIntAndFloat_exact_refuted. Qed.
-Print Assumptions C02_lt_mixed_exact_refuted.
-
-Theorem C02_lt_mixed_exact_partial : forall n f, in64 n -> is_finite f = true -> cmp_defect n f = false ->
+(* Full theorems since the repair of runtime/comp.go (range test f >= 2^63 before int64(f));
+   before it they failed for f = 2^63, n >= 2^63-512 (witness n = maxinteger now in corpus/C02). *)
+Theorem C02_lt_mixed_exact : forall n f, in64 n -> is_finite f = true ->
   (ltIntAndFloat n f = true <-> (IZR n < B2R f)%R).
-Proof. exact ltIntAndFloat_exact_partial. Qed.
-Print Assumptions C02_lt_mixed_exact_partial.
+Proof. exact ltIntAndFloat_exact. Qed.
+Print Assumptions C02_lt_mixed_exact.
 
-Theorem C02_le_mixed_exact_refuted :
-  exists n f, in64 n /\ is_finite f = true /\ ~ (B2R f <= IZR n)%R /\ leFloatAndInt f n = true.
-Proof. exact leFloatAndInt_exact_refuted. Qed.
-Print Assumptions C02_le_mixed_exact_refuted.
-
-Theorem C02_le_mixed_exact_partial : forall n f, in64 n -> is_finite f = true -> cmp_defect n f = false ->
+Theorem C02_le_mixed_exact : forall n f, in64 n -> is_finite f = true ->
   (leFloatAndInt f n = true <-> (B2R f <= IZR n)%R).
-Proof. exact leFloatAndInt_exact_partial. Qed.
-Print Assumptions C02_le_mixed_exact_partial.
+Proof. exact leFloatAndInt_exact. Qed.
+Print Assumptions C02_le_mixed_exact.
+
+(* the range test is necessary: the comparison without it (the code before the repair) is wrong at 2^63 *)
+Theorem C02_range_test_needed :
+  exists n f, in64 n /\ is_finite f = true /\ (IZR n < B2R f)%R /\
+    ltIntAndFloat_core n f = false /\ leFloatAndInt_core f n = true.
+Proof. exact core_alone_refuted. Qed.
+Print Assumptions C02_range_test_needed.
 
 (* infinities and NaN rows *)
 Theorem C02_cmp_nonfinite : forall n, in64 n ->
@@ -135,34 +132,28 @@ Theorem C02_spec_cmp_is_real_order : forall n f, is_finite f = true ->
 Proof. exact s_cmp_int_float_correct. Qed.
 Print Assumptions C02_spec_cmp_is_real_order.
 
-(* golua's < <= == on any two numbers coincide with S outside the defect class *)
-Theorem C02_cmp_im_is_spec_partial : forall x y, num_wf x -> num_wf y -> num_defect x y = false ->
+(* golua's < <= == on any two numbers coincide with S *)
+Theorem C02_cmp_im_is_spec : forall x y, num_wf x -> num_wf y ->
   num_lt x y = s_lt x y /\ num_le x y = s_le x y /\ num_eq x y = s_eq x y.
-Proof. exact cmp_im_is_spec_partial. Qed.
-Print Assumptions C02_cmp_im_is_spec_partial.
+Proof. exact cmp_im_is_spec. Qed.
+Print Assumptions C02_cmp_im_is_spec.
 
 (* ---- comparison is a consistent order ---- *)
-Theorem C02_compare_total_partial : forall x y, num_wf x -> num_wf y ->
-  num_is_nan x = false -> num_is_nan y = false -> num_defect x y = false ->
+Theorem C02_compare_total : forall x y, num_wf x -> num_wf y ->
+  num_is_nan x = false -> num_is_nan y = false ->
   exactly_one (num_lt x y) (num_eq x y) (num_lt y x).
-Proof. exact compare_total_partial. Qed.
-Print Assumptions C02_compare_total_partial.
+Proof. exact compare_total. Qed.
+Print Assumptions C02_compare_total.
 
-Theorem C02_compare_total_refuted :
-  exists x y, num_wf x /\ num_wf y /\ num_is_nan x = false /\ num_is_nan y = false /\
-    num_lt x y = false /\ num_eq x y = false /\ num_lt y x = false.
-Proof. exact compare_total_refuted. Qed.
-Print Assumptions C02_compare_total_refuted.
-
-Theorem C02_le_iff_lt_or_eq_partial : forall x y, num_wf x -> num_wf y -> num_defect x y = false ->
+Theorem C02_le_iff_lt_or_eq : forall x y, num_wf x -> num_wf y ->
   num_le x y = num_lt x y || num_eq x y.
-Proof. exact le_iff_lt_or_eq_partial. Qed.
-Print Assumptions C02_le_iff_lt_or_eq_partial.
+Proof. exact le_iff_lt_or_eq. Qed.
+Print Assumptions C02_le_iff_lt_or_eq.
 
-Theorem C02_le_iff_lt_or_eq_refuted :
-  exists x y, num_wf x /\ num_wf y /\ num_le x y = true /\ num_lt x y = false /\ num_eq x y = false.
-Proof. exact le_iff_lt_or_eq_refuted. Qed.
-Print Assumptions C02_le_iff_lt_or_eq_refuted.
+Theorem C02_cmp_nan : forall x y, num_wf x -> num_wf y -> num_is_nan x = true \/ num_is_nan y = true ->
+  num_lt x y = false /\ num_le x y = false /\ num_eq x y = false.
+Proof. exact cmp_nan. Qed.
+Print Assumptions C02_cmp_nan.
 
 (* ---- float -> integer conversion: exactly the floats with an integer value in range ---- *)
 Theorem C02_float_to_int_spec : forall f z,
@@ -188,3 +179,9 @@ Theorem C02_mixed_arith_converts : forall a g, in64 a ->
   (Z.abs a <= 2 ^ 53 -> B2R (of_int a) = IZR a).
 Proof. exact mixed_arith_converts. Qed.
 Print Assumptions C02_mixed_arith_converts.
+
+(* & | ~ and unary ~ keep int64 operands inside int64 *)
+Theorem C02_bitwise_closed : forall a b, in64 a -> in64 b ->
+  in64 (and64 a b) /\ in64 (or64 a b) /\ in64 (xor64 a b) /\ in64 (not64 a).
+Proof. exact bitwise_closed. Qed.
+Print Assumptions C02_bitwise_closed.
